@@ -23,6 +23,15 @@ def step (_ : Unit) (fields : List String) (impl : String) : Unit × Reply :=
       -- the model is nondeterministic in time: agreement = the observed run is one the model allows
       ((), ⟨"accepted-by-model=" ++ boolStr ok, ok, true, ok, "-"⟩)
     | _, _, _ => ((), .bad)
+  | ["xrun", i, k] =>
+    match i.toNat?, k.toNat? with
+    | some i, some k =>
+      let m := kvs impl
+      let o : XObs := ⟨nat m "pings", (m.lookup "connclosed") == some "true", nat m "errh", nat m "disc",
+                       (m.lookup "returned") == some "true", nat m "afterret"⟩
+      let ok := i > 0 && k > 0 && holdsX k o
+      ((), ⟨"accepted-by-model=" ++ boolStr ok, ok, true, ok, "-"⟩)
+    | _, _ => ((), .bad)
   | _ => ((), .bad)
 
 def handler : Handler := ⟨Unit, fun _ => (), step⟩
